@@ -941,6 +941,13 @@ static inline int verif_isalnum(int c) { return verif_isalpha(c) || verif_isdigi
 static inline int verif_ispunct(int c) { return c > 32 && c < 127 && !verif_isalnum(c); }
 """)
             return X("call", "verif_" + base, [tr.rv(args[0])], ty=parse_type("int"))
+        if base == "memcpy" and tr.opts.get("memcpy_code"):
+            tr.rule("memcpy model (byte-copy code)")
+            self.text.setdefault("memcpy_code", """
+static void *verif_memcpy_code(void *dst, const void *src, unsigned long n) { unsigned long i; for (i = 0; i < n; i++) ((char *)dst)[i] = ((const char *)src)[i]; return dst; }
+""")
+            tr.assume("memcpy (bounded units)", "byte-copy loop (exact values; run with --unwind)")
+            return X("call", "verif_memcpy_code", [tr.rv(args[0]), tr.rv(args[1]), tr.rv(args[2])], ty=parse_type("void *"))
         if base == "memcpy":
             tr.rule("memcpy model")
             self.contracts["verif_memcpy"] = ("void *verif_memcpy(void *dst, const void *src, unsigned long n)\n"
